@@ -6,6 +6,7 @@ import (
 
 	kruiseappsv1alpha1 "github.com/openkruise/kruise-api/apps/v1alpha1"
 	rolloutsv1beta1 "github.com/openkruise/rollouts/api/v1beta1"
+	apps "k8s.io/api/apps/v1"
 	corev1 "k8s.io/api/core/v1"
 	netv1 "k8s.io/api/networking/v1"
 	metav1 "k8s.io/apimachinery/pkg/apis/meta/v1"
@@ -113,6 +114,31 @@ func (sc *Scenario) Build(w *World) error {
 			}
 		}
 		w.Env = append(w.Env, &CloneSetEnv{NS: ns, CSName: AppName})
+	case "Deployment":
+		d := &apps.Deployment{
+			ObjectMeta: metav1.ObjectMeta{Namespace: ns, Name: AppName, Labels: map[string]string{"app": AppName}},
+			Spec: apps.DeploymentSpec{
+				Replicas: utilpointer.Int32(sc.Replicas),
+				Selector: &metav1.LabelSelector{MatchLabels: map[string]string{"app": AppName}},
+				Template: podTemplate("app:v1"),
+				Strategy: apps.DeploymentStrategy{Type: apps.RollingUpdateDeploymentStrategyType,
+					RollingUpdate: &apps.RollingUpdateDeployment{MaxSurge: parseIS("25%"), MaxUnavailable: parseIS("25%")}},
+			},
+		}
+		if err := w.Raw.Create(ctx, d); err != nil {
+			return err
+		}
+		w.Env = append(w.Env, &DeploymentEnv{NS: ns})
+		// let the native controller model bring the Deployment up (ReplicaSet, pods, status)
+		for i := 0; i < 200; i++ {
+			st := w.Env[0].Steps(w)
+			if len(st) == 0 {
+				break
+			}
+			if err := w.Env[0].Do(w, st[0]); err != nil {
+				return err
+			}
+		}
 	default:
 		return fmt.Errorf("scenario kind %q not supported yet", sc.Kind)
 	}
@@ -177,6 +203,18 @@ func (w *World) UserSetImage(sc *Scenario, image string) error {
 	switch sc.Kind {
 	case "CloneSet":
 		old := &kruiseappsv1alpha1.CloneSet{}
+		if !w.Get(old, sc.ns(), AppName) {
+			return fmt.Errorf("workload gone")
+		}
+		upd := old.DeepCopy()
+		upd.Spec.Template.Spec.Containers[0].Image = image
+		adm, err := w.AdmitWorkloadUpdate(old, upd)
+		if err != nil {
+			return err
+		}
+		return w.Raw.Update(ctx, adm)
+	case "Deployment":
+		old := &apps.Deployment{}
 		if !w.Get(old, sc.ns(), AppName) {
 			return fmt.Errorf("workload gone")
 		}
